@@ -64,7 +64,7 @@ pub fn gen_env(r: &mut Rng) -> EnvCfg {
         1 => (0..4).map(|_| r.below(3) as u16).collect(),
         _ => vec![],
     };
-    EnvCfg { seed, forced }
+    EnvCfg { seed, forced, now_jitter_us: 0 }
 }
 
 /// Payload size (uTP payload bytes) that fits a link MTU for the address family.
@@ -823,6 +823,64 @@ pub fn c14_converge(seed: u64) -> Scenario {
     }
 }
 
+/// C14: a steady path whose round-trip time sits right at the retransmission time-out (the
+/// estimator converges on RTT + 10 ms, never below 200 ms): acknowledgements arrive in the very
+/// millisecond in which the timer expires. Both sockets read their clock with a seeded
+/// sub-millisecond offset, so a poll started by an arriving packet can find the timer expired.
+/// No loss; optionally a size black-hole so that probes really are lost.
+pub fn c14_near_rto(seed: u64) -> Scenario {
+    let mut r = Rng::new(seed ^ 0xC14D);
+    let ipv6 = r.chance(0.2);
+    let floor_mtu = if ipv6 { 1280 } else { 576 };
+    let link = *r.pick(&[1500usize, 1500, 4000, 9000]);
+    let path = if r.chance(0.4) { link } else { r.range(floor_mtu as u64 + 40, link as u64) as usize };
+    let o = OptsCfg {
+        link_mtu: Some(link),
+        mtu_probe_retx: Some(if r.chance(0.7) { 0 } else { 1 }),
+        inactivity_ms: Some(600_000),
+        max_retx: Some(12),
+        disable_nagle: r.chance(0.3),
+        ..Default::default()
+    };
+    // one-way latency so that RTT (+ the peer's delayed ACK) lands between 180 and 320 ms
+    let lat_us = r.range(70_000, 150_000);
+    let mut net = NetCfg { seed: r.next(), latency_us: lat_us, jitter_us: r.range(0, 30_000), protect_syn: true, ..Default::default() };
+    // now and then a packet is late by up to the margin the time-out keeps over the round trip
+    net.stale_p = *r.pick(&[0.1, 0.2, 0.4]);
+    net.stale_ms = r.range(15, 120);
+    if path < link {
+        net.blackhole_ip = Some(path);
+    }
+    let seg = max_payload(path, ipv6) as u64;
+    let mut w = vec![];
+    for _ in 0..r.range(3, 12) {
+        w.push(WOp::Write { n: r.range(2, 12) * seg + r.below(seg), chunk: 65536 });
+        if r.chance(0.6) {
+            w.push(WOp::Sleep(r.range(1, 900)));
+        }
+    }
+    w.push(WOp::Flush);
+    w.push(WOp::Shutdown);
+    let mut env_a = gen_env(&mut r);
+    let mut env_b = gen_env(&mut r);
+    env_a.now_jitter_us = 999;
+    env_b.now_jitter_us = 999;
+    Scenario {
+        family: "c14_near_rto".to_string(),
+        seed,
+        net,
+        nodes: vec![NodeCfg { ipv6, opts: o.clone(), env: env_a }, NodeCfg { ipv6, opts: o, env: env_b }],
+        connects: vec![ConnectScript { node: 0, to: 1, at_ms: 0, cancel_after_ms: None, side: Side { w, r: vec![ROp::Read { n: u64::MAX, buf: 65536, vectored: false }] } }],
+        accepts: vec![AcceptScript { node: 1, at_ms: 0, cancel_after_ms: None, side: Side { w: vec![], r: vec![ROp::Read { n: u64::MAX, buf: 65536, vectored: false }] } }],
+        global: vec![],
+        peer: None,
+        attack: None,
+        script_cap_ms: 600_000,
+        settle_ms: 2_000,
+        params: Default::default(),
+    }
+}
+
 // ------------------------------------------------------------------------------------------
 // C11: corruption on the receive path.
 
@@ -942,7 +1000,11 @@ pub fn peer_sender(seed: u64, family: &str, exact: bool) -> Scenario {
     let mss = min_payload(link_v, ipv6);
     let maxp = max_payload(link_v, ipv6);
     let mut opts = OptsCfg { link_mtu: link, ..Default::default() };
-    let n_pkts = r.range(1, if exact { 40 } else { 60 }) as usize;
+    // "wide hole" shape (exact mode): one early packet arrives after 33-66 later ones, so the
+    // selective-ACK bitmap is walked through every length up to and beyond its 32- and 64-bit
+    // boundaries while the cumulative acknowledgement stands still
+    let wide_hole = exact && r.chance(0.08);
+    let n_pkts = if wide_hole { r.range(40, 75) as usize } else { r.range(1, if exact { 40 } else { 60 }) as usize };
     // receive buffer: large, or small enough to matter
     let small_rx = r.chance(0.5);
     if small_rx {
@@ -978,6 +1040,14 @@ pub fn peer_sender(seed: u64, family: &str, exact: bool) -> Scenario {
         let i = r.below(n_pkts as u64) as usize;
         let j = (i + r.range(1, 6) as usize).min(n_pkts - 1);
         order.swap(i, j);
+    }
+    if wide_hole {
+        let i = r.below(4) as usize;
+        let d = r.range(33, (n_pkts - 1 - i).min(68) as u64) as usize;
+        if let Some(pos) = order.iter().position(|x| *x == i) {
+            let x = order.remove(pos);
+            order.insert((pos + d).min(order.len()), x);
+        }
     }
     // exact mode: every packet must fit a reassembly slot when it arrives: the buffer has to
     // cover the largest distance a packet runs ahead of the in-order point
@@ -1363,6 +1433,16 @@ pub fn peer_receiver(seed: u64, family: &str, variant: u8) -> Scenario {
     let mut params = std::collections::BTreeMap::new();
     params.insert("peer_variant".to_string(), variant as i64);
     let mut peer = peer;
+    // the peer has data of its own (nagle family): it arrives at seeded points of
+    // the script, in order, so that the endpoint owes acknowledgements (delayed, or immediate
+    // after two packets) while its own small writes wait for the pipe to drain
+    if !piggyback && !peer.pkts.is_empty() && variant == 3 {
+        let mut pos: Vec<usize> = (0..peer.pkts.len()).map(|_| r.below(peer.steps.len() as u64 + 1) as usize).collect();
+        pos.sort();
+        for (i, at) in pos.into_iter().enumerate().rev() {
+            peer.steps.insert(at.min(peer.steps.len()), PeerStep::SendPkt(i));
+        }
+    }
     // A connector peer must send something after the SYN-ACK or the endpoint gives up: one ACK.
     peer.steps.insert(0, PeerStep::Ack { ack_delta: 0, wnd: None, sack: SackSpec::None });
     Scenario {
@@ -1570,8 +1650,8 @@ pub fn c09_wide(seed: u64) -> Scenario {
         seed,
         net,
         nodes: vec![
-            NodeCfg { ipv6, opts: mk(link), env: EnvCfg { seed: r.next(), forced: vec![r.range(1, 2000) as u16, r.range(1, 2000) as u16] } },
-            NodeCfg { ipv6, opts: mk(link), env: EnvCfg { seed: r.next(), forced: vec![r.range(1, 2000) as u16, r.range(1, 2000) as u16] } },
+            NodeCfg { ipv6, opts: mk(link), env: EnvCfg { seed: r.next(), forced: vec![r.range(1, 2000) as u16, r.range(1, 2000) as u16], now_jitter_us: 0 } },
+            NodeCfg { ipv6, opts: mk(link), env: EnvCfg { seed: r.next(), forced: vec![r.range(1, 2000) as u16, r.range(1, 2000) as u16], now_jitter_us: 0 } },
         ],
         connects: vec![ConnectScript { node: 0, to: 1, at_ms: 0, cancel_after_ms: None, side: Side { w: wa, r: rd.clone() } }],
         accepts: vec![AcceptScript { node: 1, at_ms: 0, cancel_after_ms: None, side: Side { w: wb, r: rd } }],
@@ -1611,7 +1691,7 @@ pub fn c12_many(seed: u64) -> Scenario {
             disable_nagle: r.chance(0.2),
             ..Default::default()
         };
-        let mut env = EnvCfg { seed: r.next(), forced: vec![] };
+        let mut env = EnvCfg { seed: r.next(), forced: vec![], now_jitter_us: 0 };
         if same_cid {
             env.forced = vec![cid0];
         } else if r.chance(0.3) {
@@ -1710,9 +1790,9 @@ pub fn c13_pairing(seed: u64) -> Scenario {
         inactivity_ms: Some(r.range(8_000, 20_000)),
         ..Default::default()
     };
-    nodes.push(NodeCfg { ipv6, opts: l_opts, env: EnvCfg { seed: r.next(), forced: vec![] } });
+    nodes.push(NodeCfg { ipv6, opts: l_opts, env: EnvCfg { seed: r.next(), forced: vec![], now_jitter_us: 0 } });
     for _ in 0..n_conn_nodes {
-        nodes.push(NodeCfg { ipv6, opts: OptsCfg { inactivity_ms: Some(r.range(8_000, 20_000)), ..Default::default() }, env: EnvCfg { seed: r.next(), forced: vec![] } });
+        nodes.push(NodeCfg { ipv6, opts: OptsCfg { inactivity_ms: Some(r.range(8_000, 20_000)), ..Default::default() }, env: EnvCfg { seed: r.next(), forced: vec![], now_jitter_us: 0 } });
     }
     let b_acc: u64 = if r.chance(0.3) { 0 } else { r.log_range(1, 3_000) };
     let mut connects = vec![];
